@@ -169,7 +169,26 @@ func c12Hist(c *caseCtx) (res caseResult) {
 	for i := 0; i < nOps; i++ {
 		a := r.Intn(nA)
 		obj := r.Intn(3)
-		switch x := r.Intn(10); {
+		switch x := r.Intn(11); {
+		case x == 10:
+			// things that happen on a running engine and are none of the subscribers' business: a peer is
+			// reported unreachable (a connection closed; also the address of a subscriber on another node),
+			// a message goes out to a node although the engine has no remote. The subscriptions stay as they are.
+			switch {
+			case rr != nil && nA > nL:
+				e.BroadcastEvent(actor.RemoteUnreachableEvent{ListenAddr: pids[nL+r.Intn(nA-nL)][0].Address})
+				ops = append(ops, "UnreachableEvent")
+			case rr != nil:
+				e.BroadcastEvent(actor.RemoteUnreachableEvent{ListenAddr: "10.0.0.7:5000"})
+				ops = append(ops, "UnreachableEvent")
+			default:
+				if r.Intn(2) == 0 {
+					e.Send(actor.NewPID("10.1.2.3:4000", "worker/1"), "hello")
+				} else {
+					e.SendWithSender(actor.NewPID("10.1.2.3:4000", "worker/1"), "hello", pids[0][0])
+				}
+				ops = append(ops, "ForeignSend")
+			}
 		case x < 3:
 			if subscribed[a] {
 				dbl++
